@@ -24,7 +24,7 @@ RULE = (
     "9x4; modes below/at/default; single and double precision (one twin pair on a fine grid where the shooting solutions grow by e^11); footprint and dispersion; single/multiple/unsorted levels; analytic; "
     "halo default/0/fractional; two specs differ from another only in the domain resp. the profiles, two more are near twins (8th digit) of other specs; the source array is one object per grid shape, refilled in place before every solve) each solvable in three representations of the same argument values (C / Fortran / transposed-view source, tuples or lists of profile arrays, Python ints, floats, NumPy scalars or persistent NumPy arrays for domain, halo, measurement point, levels, modes and background; no argument may be modified in place), and the operations set_threads(1..8), reset_fft_manager(), write-and-truncate the FFTW wisdom file "
     "then reset. Model: the first result seen for (spec, threads) - every later result for the same key must be bit-identical; every "
-    "result must agree with the same solve done as the only solve of a fresh spawned single-threaded process (one process per spec) to 1e-12 of the field maximum (double; "
+    "result must agree with the same solve done as the only solve of a fresh spawned single-threaded process (one process per spec, which also repeats its solve after reset_fft_manager() and reports whether the repeat is bit-identical) to 1e-12 of the field maximum (double; "
     "1e-5 for single precision against its double-precision twin). Non-trivial = history with >= 2 thread settings, >= 1 reset and a "
     "repeat of a spec after a different shape was solved; distinct = canonical JSON of the step list."
 )
@@ -181,11 +181,19 @@ from pbt import env
 env.setup(); env.import_bldfm()
 from pbt.props import c12
 k = int(sys.argv[4])
-pickle.dump(c12._solve(k), open(sys.argv[3], "wb"))
+import numpy as np
+first = c12._solve(k)                      # the reference: the first solve this process ever makes
+from bldfm import fft_manager
+fft_manager.reset_fft_manager()            # ... and the same solve once more after re-initialising the FFT layer
+again = c12._solve(k)
+same = all(a.dtype == b.dtype and np.array_equal(a, b) for a, b in zip(first, again))
+diff = max(float(np.abs(np.asarray(a, float) - np.asarray(b, float)).max()) for a, b in zip(first, again))
+pickle.dump((first, same, diff), open(sys.argv[3], "wb"))
 sys.stdout.write("ok\n"); sys.stdout.flush()
 env.hard_exit(0)
 """
 _REF = None
+_REF_RESET = {}  # spec -> (bit-identical, max diff) of 'solve, reset_fft_manager(), solve again' in the fresh process
 
 
 def _ref_one(k):
@@ -195,8 +203,9 @@ def _ref_one(k):
     if "ok" not in r.stdout:
         raise RuntimeError(f"reference process for spec {k} failed: " + r.stderr[-800:])
     with open(path, "rb") as f:
-        out = pickle.load(f)
+        out, same, diff = pickle.load(f)
     os.remove(path)
+    _REF_RESET[k] = (same, diff)
     return out
 
 
@@ -305,6 +314,10 @@ class History:
         else:
             self.first[key] = (c.copy(), f.copy())
         rc, rf = reference()[k]
+        same, rdiff = _REF_RESET.get(k, (True, 0.0))
+        if not same:
+            fails.append(f"spec {k}: in a fresh process, the same solve repeated after reset_fft_manager() is not bit-identical to "
+                         f"the first one (max diff {rdiff:.3e})")
         single = c.dtype == np.float32
         rel = (1e-12 if k not in HIGH_GROWTH else 6e-8) if not single else 1e-6
         for name, a, b in (("conc", c, rc), ("flux", f, rf)):
